@@ -14,6 +14,7 @@ from typing import Any, Dict, List, Tuple
 
 from .. import core
 from ..core import Check, canon, exc_family, show, tag, tlc, untag, untext
+from ..pathcommon import _drive
 
 CFG = """CONSTANTS Universe = "{universe}"
 INIT Init
@@ -74,6 +75,21 @@ def replay(rec: Dict[str, Any]) -> List[Tuple[str, Dict[str, Any], str]]:
                 if got != exp:
                     disc = "different-result-than-default-spelling"
                     break
+                # the other entry points evaluate the same program (they have their own copies of the operator dispatch)
+                fc = untag(ctx_t)
+                routes = {"finditer": lambda: [m.obj for m in path.finditer(untag(dt["doc"]), filter_context=fc)],
+                          "env.finditer": lambda: [m.obj for m in env.finditer(text, untag(dt["doc"]), filter_context=fc)],
+                          "findall_async": lambda: _drive(path.findall_async(untag(dt["doc"]), filter_context=fc)),
+                          "finditer_async": lambda: _drive(_acollect(path, untag(dt["doc"]), fc)),
+                          "env.query": lambda: list(env.query(text, untag(dt["doc"]), filter_context=fc).values()),
+                          "match": lambda: [m.obj for m in [path.match(untag(dt["doc"]), filter_context=fc)] if m is not None]}
+                for rname, fn in routes.items():
+                    g = [canon(tag(v)) for v in fn()]
+                    if g != (exp[:1] if rname == "match" else exp):
+                        disc = f"{rname}:different-result-than-default-spelling"
+                        break
+                if disc:
+                    break
                 t1 = str(path)
                 p2 = env.compile(t1)
                 if str(p2) != t1:
@@ -96,6 +112,10 @@ def replay(rec: Dict[str, Any]) -> List[Tuple[str, Dict[str, Any], str]]:
         return []
     lens = "+".join(f"{k}:{len(untext(rec['assign'][k]))}" for k in changed)
     return [(f"{disc}|{lens}", {"assignment": {k: untext(v) for k, v in rec["assign"].items()}, "query": text, "default_spelling": dtext, **extra, "tagged": rec}, disc)]
+
+
+async def _acollect(path: Any, doc: Any, fc: Any) -> List[Any]:
+    return [m.obj async for m in await path.finditer_async(doc, filter_context=fc)]
 
 
 LEXCFG = """CONSTANTS Universe = "prefix"
@@ -153,7 +173,11 @@ def run(chk: Check, tier: str, seed: int) -> None:
             recs.append(x)
     recs.sort(key=lambda x: json.dumps(x["assign"], sort_keys=True))
     if tier == "quick":  # every assignment, programs rotated (thorough: every assignment x every program)
-        recs = [x for i, x in enumerate(recs) if i % 3 == 0]
+        def delicate(x: Dict[str, Any]) -> bool:
+            # compound programs under an assignment that respells an operator are always kept
+            return untext(x["text"]) != untext(x["dtext"]) and any(untext(x["assign"][k]) != d and untext(x["assign"][k]) in untext(x["text"]) for k, d in (("union", "|"), ("inter", "&")))
+
+        recs = [x for i, x in enumerate(recs) if i % 3 == 0 or delicate(x)]
     for rec, res in zip(recs, core.pmap(replay, recs)):
         chk.traces += 1
         chk.nontrivial.add((json.dumps(rec["assign"], sort_keys=True), untext(rec["dtext"])))
